@@ -156,7 +156,7 @@ class PoolDeadlineFamily(ScenarioFamily):
                "c16": {"mode": mode, "pool": pool_t, "hold": hold}}
         if self.ex == "asyncio":
             scn["sched"] = r.choice(["fifo", "shuffle"])
-        else:
+        elif self.ex == "threads":
             scn["policy"] = r.choice([{"mode": "ops", "op_p": 0.5}, {"mode": "lines", "p": 0.05}])
         return scn
 
@@ -223,4 +223,5 @@ register("C16", {
 }, [ArgsFamily("timeout-args-async", "asyncio", 1500, 30000),
     ArgsFamily("timeout-args-threads", "threads", 500, 10000),
     PoolDeadlineFamily("pool-deadline-async", "asyncio", 1500, 30000),
-    PoolDeadlineFamily("pool-deadline-threads", "threads", 500, 10000)])
+    PoolDeadlineFamily("pool-deadline-threads", "threads", 500, 10000),
+    PoolDeadlineFamily("pool-deadline-trio", "trio", 800, 15000)])
